@@ -6,6 +6,7 @@ import (
 
 	"pgregory.net/rapid"
 
+	"verifharness/gen"
 	"verifharness/model"
 )
 
@@ -117,4 +118,56 @@ func updateCaseTwin(rt *rapid.T, u model.Update, names map[string]string, values
 	to, _ := flipCase(from)
 	n2, v2 := twinMaps(from, to, names, values)
 	return model.RenderUpdate(model.MapUpdate(u, twinRename(from, to))), n2, v2, true
+}
+
+// twinValue draws a value of the same shape as v (same type, same map field
+// names, same list length, same set size where possible) with other contents.
+func twinValue(rt *rapid.T, v model.AV, o gen.AVOpts) model.AV {
+	switch v.T {
+	case "S":
+		return model.Str(v.S + rapid.SampledFrom([]string{"x", "~", "0"}).Draw(rt, "twinS"))
+	case "N":
+		d := model.MustDec(v.S).Add(model.MustDec(rapid.SampledFrom([]string{"1", "-1", "2"}).Draw(rt, "twinN")))
+		if n := d.Plain(); d.InRange() && (!o.FloatExact || model.FloatExact(n)) {
+			return model.Num(n)
+		}
+		return model.Num("7")
+	case "B":
+		return model.Bin(append(append([]byte{}, v.B...), 0x7e))
+	case "BOOL":
+		return model.Bool(!v.Bool)
+	case "SS":
+		out := model.StrSet()
+		for _, s := range v.SS {
+			out.SS = append(out.SS, s+"~")
+		}
+		return out
+	case "L":
+		out := model.List()
+		for _, e := range v.L {
+			out.L = append(out.L, twinValue(rt, e, o))
+		}
+		return out
+	case "M":
+		out := model.Map(nil)
+		for k, e := range v.M {
+			out.M[k] = twinValue(rt, e, o)
+		}
+		return out
+	}
+	return v.Clone()
+}
+
+// valueTwin returns bindings of the same names and shapes with other contents.
+func valueTwin(rt *rapid.T, values map[string]model.AV, o gen.AVOpts) map[string]model.AV {
+	keys := make([]string, 0, len(values))
+	for k := range values {
+		keys = append(keys, k)
+	}
+	sort.Strings(keys)
+	out := map[string]model.AV{}
+	for _, k := range keys {
+		out[k] = twinValue(rt, values[k], o)
+	}
+	return out
 }
